@@ -206,6 +206,33 @@ def runEvs {P : Proto} (s : State P) : List (Act P) → Option (State P × List 
       | none => none
     | none => none
 
+/-! ### returns: calls that completed along a run -/
+
+/-- threads whose pending call completed by action `a` (busy before, not busy after) -/
+def retsOf {P : Proto} (s s' : State P) (a : Act P) : List (TId × P.L) :=
+  let cands : List TId := match a with
+    | .call _ _ => []
+    | .step t => [t]
+    | .wake t ws => t :: ws
+    | .timeout t => [t]
+    | .spurious t => [t]
+  (cands.filter fun t => (P.op (s.loc t)).isSome && (P.op (s'.loc t)).isNone).map fun t => (t, s'.loc t)
+
+/-- run an action list, collecting the calls that returned (thread, local state at return) -/
+def runRets {P : Proto} (s : State P) : List (Act P) → Option (State P × List (TId × P.L))
+  | [] => some (s, [])
+  | a :: as => match exec s a with
+    | some s' => match runRets s' as with
+      | some (sf, rs) => some (sf, retsOf s s' a ++ rs)
+      | none => none
+    | none => none
+
+/-- the calls started along an action list -/
+def callsOf {P : Proto} : List (Act P) → List (TId × P.L)
+  | [] => []
+  | .call t l :: as => (t, l) :: callsOf as
+  | _ :: as => callsOf as
+
 def initState (P : Proto) (idle : P.L) (mem : Fld → Int) : State P :=
   { mem := mem, loc := fun _ => idle, parked := fun _ => none, threads := [] }
 
